@@ -395,6 +395,11 @@ def apply_op(run, case, real, sh, op, stamped, state, step):
                       "second projection refused", case, "second projection was not refused",
                       key="project:second-accepted")
             return real, sh
+        if out[0] == "exc" and state.get("readonly") and isinstance(out[1], ValueError) and "read-only" in str(out[1]):
+            # project() works in place on the matrices the object was given: memory that cannot
+            # be written is refused by numpy before anything changes (not a clause of C08)
+            run.hit("projection of matrices in read-only memory stopped by numpy (not judged)")
+            raise Mismatch()
         if out[0] == "exc":
             run.check(False, "project succeeds", case, "project raised %r" % (out[1], ))
             raise Mismatch()
@@ -509,13 +514,15 @@ class LazyOps:
 
 def run_history_lazy(run, case, arr, mode, stamped, lazy):
     fl = gen.rand_flavour(lazy.rng)
+    if lazy.rng.random() < .12:
+        fl = "readonly"  # the caller's arrays live in read-only memory
     if mode == "se3" and str(arr.get("cls", ("", ))[0]).endswith("+held") and lazy.rng.random() < .6:
         fl = "shared"  # identical consecutive poses as one array object
     if gen.all_integer(arr["p"]) and lazy.rng.random() < .5:
         fl = "int" + fl[fl.find("+"):] if "+" in fl else "int"  # whole-number data: half of it as integers
     real = gen.make_evo(arr, mode, stamped, flavour=fl)
     sh = ShadowTrajectory(arr["R"], arr["p"], arr["t"] if stamped else None)
-    state = {"projected": False, "parents": []}
+    state = {"projected": False, "parents": [], "readonly": fl == "readonly"}
     step, opname = 0, "init"
     trace = []
     try:
